@@ -113,6 +113,7 @@ struct fsrc {
     size_t maxper;
     unsigned calls, bound;
     int runaway;
+    uint64_t idle, idled; /* bit i: before octet i is delivered the driver has nothing yet, once (it returns 0: try again) */
 };
 
 static ssize_t
@@ -125,6 +126,10 @@ fsrc_chunk(void *drv, void *out, size_t n)
     }
     if (s->pos >= s->n)
         return -ENODATA;
+    if (s->pos < 64 && ((s->idle & ~s->idled) >> s->pos) & 1) {
+        s->idled |= 1ull << s->pos;
+        return 0;
+    }
     size_t k = 0;
     while (k < n && s->pos + k < s->n) {
         k++;
@@ -146,6 +151,7 @@ fsrc_octet(void *drv, void *out)
 
 /* optional: the chunk source exposes a transfer window through the getbuffer extension (the way the plumbing in
  * endpoints/core.c uses it: a scratch buffer the source's octets are read into before they go to the sink) */
+static int fsrc_allow_idle;
 static size_t fsrc_window;
 static unsigned char fsrc_win[80];
 
@@ -166,7 +172,16 @@ mk_source(Source *src, struct fsrc *s, int octet, const unsigned char *p, size_t
     s->n = n;
     s->cuts = cuts;
     s->maxper = maxper;
-    s->bound = (unsigned)(2 * n + 64);
+    s->bound = (unsigned)(2 * n + 200);
+    /* every third source without a transfer window has nothing to give now and then (a driver polled between two
+     * bursts returns 0, which the chunk API of the endpoints defines as "try again"); only where the decoder reads
+     * through that API: fixed-width prefixes of two and four octets into memory or a buffer (the per-octet calls
+     * hand a driver's 0 to their caller, what varint decoding and the per-octet plumbing make of it is not stated) */
+    static unsigned idle_rot;
+    if (fsrc_allow_idle && !fsrc_window && idle_rot++ % 3u == 0) {
+        s->idle = cuts * 0x9e3779b97f4a7c15ull | 1ull << (idle_rot % 7u);
+        VH_COUNT("decoder: source that has nothing to give now and then (returns 0)");
+    }
     if (octet)
         octet_source_init(src, fsrc_octet, s);
     else
@@ -576,7 +591,9 @@ dec_case(int k, int dec, int octet_source, uint64_t cuts, size_t maxper, const s
     unsigned char *in = vh_arena_copy(stream, sn);
     Source src;
     struct fsrc fs;
+    fsrc_allow_idle = dec != D_SINK && k >= LENP_LE_16BIT;
     mk_source(&src, &fs, octet_source, in, sn, cuts, maxper);
+    fsrc_allow_idle = 0;
     char key[96], ctx[200];
     static const char *dname[] = { "flenp_memory_from_source", "flenp_buffer_from_source",
                                    "flenp_decode_source_to_sink" };
